@@ -19,6 +19,14 @@ class MathProxy:
     def __getattr__(self, k):
         return getattr(_math, k)
 
+    def floor(self, x):
+        from .core import FV
+        if isinstance(x, FV):
+            return x.floor()
+        if isinstance(x, SV):
+            raise Unsupported('math.floor of a symbolic value')
+        return _math.floor(x)
+
     def sqrt(self, x):
         return _sv(x).sqrt() if isinstance(x, (SV, SB)) else _math.sqrt(x)
 
@@ -29,6 +37,9 @@ class MathProxy:
         return _sv(x).log() if isinstance(x, (SV, SB)) else _math.log(x)
 
     def ceil(self, x):
+        from .core import FV
+        if isinstance(x, FV):
+            return x.ceil()
         if isinstance(x, SV):
             raise Unsupported('math.ceil of a symbolic value')
         return _math.ceil(x)
@@ -74,7 +85,8 @@ class SymArray(_np.ndarray):
 
     def astype(self, dtype, *a, **k):
         if dtype in ('float64', 'float', float, _np.float64):
-            return self.copy()
+            # the array stands for a float64 array: numpy returns the array itself when no copy is requested
+            return self if k.get('copy', True) is False else self.copy()
         return _np.ndarray.astype(self, dtype, *a, **k)
 
 
